@@ -123,6 +123,11 @@ func analyse(cfg *Config, obs *Obs) *faultAnalysis {
 		return false
 	}
 	for _, e := range obs.Events {
+		// a pending "required" is consumed by the very next open of that path; any file-system
+		// operation on another path in between means the engine moved on (e.g. size-limit skip)
+		if fsOps[e.Op] && e.Path != pendP {
+			pendP, pendE = "", ""
+		}
 		switch e.Op {
 		case "inode":
 			pendP, pendE = "", ""
